@@ -33,6 +33,7 @@ var c19Lines = []string{
 	"##!> define x (", "##!> define y {{x}}", "##!> define x a{{x}}", "##!> define x {{y}}b", "##!> include x", "##!> include-except x x", "##!> include x -- x y", "##!> include x -- a", "##! c", "",
 	"'a", "a@", "a~", `a\@`, "@", "\t", "##!> include inc",
 	"\xef", "\xef\xbb", "\xef\xbb\xbfa", "\xc3",
+	"##!> include x -- o \"", "##!> include-except x x -- r \"", "##!^ (?i:p", "##!$ (?s:x", "##!^ (?:(",
 	"##!=> \x0b", "##!=< \u00a0", "##!=>\u0085", "##!> include \u00a0", "##!^ \x0b", "##!> define \u00a0 \u2003",
 }
 
@@ -104,6 +105,9 @@ func c19Tree() core.Tree {
 }
 
 func C19(r *core.Run) {
+	if r.IsWorker() {
+		core.LimitOpenFiles(4096)
+	}
 	dir := ""
 	if !r.IsWorker() {
 		dir = core.Scratch("c19")
